@@ -248,3 +248,23 @@ impl<V> DotBuilder for MethodMatcher<V> {
         Some(node_name)
     }
 }
+
+#[cfg(feature = "verif")]
+mod verif_hooks {
+    use super::MethodMatcher;
+    use crate::router::verif_hooks::VerifRouterDump;
+
+    impl<T> MethodMatcher<T> {
+        pub(crate) fn verif_walk(&self, path: &str, dump: &mut VerifRouterDump) {
+            self.any_method.verif_walk(format!("{path}/method=*").as_str(), dump);
+
+            for (method, matcher) in &self.methods {
+                matcher.verif_walk(format!("{path}/method={method}").as_str(), dump);
+            }
+
+            for (methods, matcher) in &self.exclude_methods {
+                matcher.verif_walk(format!("{path}/method!={}", methods.join(",")).as_str(), dump);
+            }
+        }
+    }
+}
